@@ -1485,8 +1485,8 @@ func tablesC18(c *Ctx) {
 		c.Unresolved(rule, "package tlsutils")
 		return
 	}
-	fd := funcDecl(p, "TLSClientConfiguration")
-	if fd == nil || fd.Body == nil {
+	tcf := w.Func("tlsutils", "TLSClientConfiguration")
+	if tcf == nil || tcf.Blocks == nil {
 		c.Unresolved(rule, "function tlsutils.TLSClientConfiguration")
 		return
 	}
@@ -1495,31 +1495,27 @@ func tablesC18(c *Ctx) {
 		c.Unresolved(rule, "crypto/tls source package (oracle)")
 		return
 	}
-	var lits []*ast.CompositeLit
-	ast.Inspect(fd.Body, func(n ast.Node) bool {
-		if cl, ok := n.(*ast.CompositeLit); ok && t2isNamed(p.TypesInfo.TypeOf(cl), "crypto/tls", "Config") {
-			lits = append(lits, cl)
-		}
-		return true
-	})
-	if len(lits) != 1 {
-		c.Unresolved(rule, fmt.Sprintf("exactly one tls.Config composite literal in TLSClientConfiguration (found %d)", len(lits)))
+	// the tls.Config value built by the function (literal or field assignments, possibly in a helper), on the compiled form
+	w.Focus(tcf)
+	cfgs := w.allocsOfDeep(tcf, "crypto/tls.Config")
+	if len(cfgs) != 1 {
+		c.Unresolved(rule, fmt.Sprintf("exactly one tls.Config composite literal in TLSClientConfiguration (found %d)", len(cfgs)))
 		c.Floor(rule, 0, 6, "cipher suites")
 		return
 	}
-	lit := lits[0]
-	lpos := w.Pos(lit.Pos())
-	fields := map[string]ast.Expr{}
-	for _, el := range lit.Elts {
-		kv, ok := el.(*ast.KeyValueExpr)
-		if !ok {
-			c.Und(rule, "tls.Config literal|keyed fields", lpos, "the literal uses positional fields")
-			c.Floor(rule, 0, 6, "cipher suites")
-			return
+	cfg := cfgs[0]
+	lpos := w.Pos(cfg.Pos())
+	fields := w.FieldStoresDeep(tcf, cfg)
+	tlsConstName := func(v int64, prefix string) string {
+		sc := tp.Types.Scope()
+		for _, n := range sc.Names() {
+			if k, ok := sc.Lookup(n).(*types.Const); ok && strings.HasPrefix(n, prefix) {
+				if kv, ok := constant.Int64Val(k.Val()); ok && kv == v {
+					return n
+				}
+			}
 		}
-		if id, ok := kv.Key.(*ast.Ident); ok {
-			fields[id.Name] = kv.Value
-		}
+		return ""
 	}
 
 	// MinVersion
@@ -1527,69 +1523,56 @@ func tablesC18(c *Ctx) {
 	if k, ok := tp.Types.Scope().Lookup("VersionTLS12").(*types.Const); ok {
 		min12, _ = constant.Int64Val(k.Val())
 	}
-	if e := fields["MinVersion"]; e == nil {
+	if vs := fields["MinVersion"]; len(vs) == 0 {
 		c.Bad(rule, "tls.Config literal|MinVersion constant >= TLS 1.2", lpos, "MinVersion is not set in the literal")
-	} else if v, name, ok := t2constInt(p, e); !ok {
-		c.Bad(rule, "tls.Config literal|MinVersion constant >= TLS 1.2", w.Pos(e.Pos()), "MinVersion is not a constant")
 	} else {
-		c.Check(v >= min12, rule, "tls.Config literal|MinVersion constant >= TLS 1.2", w.Pos(e.Pos()), fmt.Sprintf("MinVersion = %s (%#04x)", name, v),
-			fmt.Sprintf("MinVersion = %s (%#04x) is below tls.VersionTLS12 (%#04x)", name, v, min12))
+		for _, e := range vs {
+			v, ok := intConst(w.canon(tcf, e))
+			if !ok {
+				c.Bad(rule, "tls.Config literal|MinVersion constant >= TLS 1.2", lpos, "MinVersion is not a constant")
+				continue
+			}
+			name := tlsConstName(v, "VersionTLS")
+			c.Check(v >= min12, rule, "tls.Config literal|MinVersion constant >= TLS 1.2", lpos, fmt.Sprintf("MinVersion = %s (%#04x)", name, v),
+				fmt.Sprintf("MinVersion = %s (%#04x) is below tls.VersionTLS12 (%#04x)", name, v, min12))
+		}
 	}
 	for _, k := range []string{"MaxVersion", "ServerName", "VerifyPeerCertificate", "VerifyConnection"} {
-		e := fields[k]
-		pos := lpos
-		if e != nil {
-			pos = w.Pos(e.Pos())
-		}
-		c.Check(e == nil, rule, "tls.Config literal|no "+k, pos, k+" is not set", "the literal sets "+k)
+		c.Check(len(fields[k]) == 0, rule, "tls.Config literal|no "+k, lpos, k+" is not set", "the literal sets "+k)
 	}
-	if e := fields["InsecureSkipVerify"]; e == nil {
+	if vs := fields["InsecureSkipVerify"]; len(vs) == 0 {
 		c.Ok(rule, "tls.Config literal|InsecureSkipVerify absent or false", lpos, "InsecureSkipVerify is not set")
 	} else {
-		v := constOf(p, e)
-		isFalse := v != nil && v.Kind() == constant.Bool && !constant.BoolVal(v)
-		c.Check(isFalse, rule, "tls.Config literal|InsecureSkipVerify absent or false", w.Pos(e.Pos()), "InsecureSkipVerify: constant false", "the literal sets InsecureSkipVerify to something other than the constant false")
+		isFalse := true
+		for _, e := range vs {
+			if b, ok := boolConst(w.canon(tcf, e)); !ok || b {
+				isFalse = false
+			}
+		}
+		c.Check(isFalse, rule, "tls.Config literal|InsecureSkipVerify absent or false", lpos, "InsecureSkipVerify: constant false", "the literal sets InsecureSkipVerify to something other than the constant false")
 	}
 
 	// cipher suites
-	cs := fields["CipherSuites"]
-	if cs == nil {
+	csv := fields["CipherSuites"]
+	if len(csv) != 1 {
 		c.Unresolved(rule, "CipherSuites field of the tls.Config literal")
 		c.Floor(rule, 0, 6, "cipher suites")
 		return
 	}
-	var listLit ast.Expr
 	srcName := "the CipherSuites literal"
-	if call, callee := t2callee(p, cs); call != nil {
-		f, ok := callee.(*types.Func)
-		var sfd *ast.FuncDecl
-		if ok && f.Pkg() == p.Types {
-			sfd = t2declOf(p, f)
+	if cv, ok := strip(csv[0]).(*ssa.Call); ok {
+		if h := w.helperOf(cv); h != nil {
+			srcName = h.Name()
 		}
-		if sfd == nil || sfd.Body == nil {
-			c.Unresolved(rule, "declaration of the function initialising CipherSuites")
-			c.Floor(rule, 0, 6, "cipher suites")
-			return
-		}
-		srcName = f.Name()
-		if len(sfd.Body.List) != 1 {
-			c.Und(rule, srcName+"|returns a literal list", w.Pos(sfd.Pos()), "the function body is not a single return statement (the list may be modified before it is returned)")
-			c.Floor(rule, 0, 6, "cipher suites")
-			return
-		}
-		r, ok := sfd.Body.List[0].(*ast.ReturnStmt)
-		if !ok || len(r.Results) != 1 {
-			c.Und(rule, srcName+"|returns a literal list", w.Pos(sfd.Pos()), "the function body is not `return <literal>`")
-			c.Floor(rule, 0, 6, "cipher suites")
-			return
-		}
-		listLit = r.Results[0]
-	} else {
-		listLit = cs
 	}
-	ll, ok := t2unparen(listLit).(*ast.CompositeLit)
-	if !ok {
-		c.Und(rule, srcName+"|returns a literal list", w.Pos(listLit.Pos()), "the cipher-suite list is not a composite literal")
+	var elems []ssa.Value
+	if sl, ok := w.canon(tcf, csv[0]).(*ssa.Slice); ok && sl.Low == nil && sl.High == nil {
+		if arr, ok := sl.X.(*ssa.Alloc); ok {
+			elems = storesIntoOrdered(arr)
+		}
+	}
+	if len(elems) == 0 {
+		c.Und(rule, srcName+"|returns a literal list", lpos, "the cipher-suite list is not a literal list of constants (it may be modified before it is used)")
 		c.Floor(rule, 0, 6, "cipher suites")
 		return
 	}
@@ -1614,15 +1597,16 @@ func tablesC18(c *Ctx) {
 	tls13 := map[int64]bool{0x1301: true, 0x1302: true, 0x1303: true}
 	n := 0
 	seen := map[int64]bool{}
-	for i, el := range ll.Elts {
-		if kv, ok := el.(*ast.KeyValueExpr); ok {
-			el = kv.Value
+	for i, el := range elems {
+		id, ok := int64(0), false
+		if el != nil {
+			id, ok = intConst(w.canon(tcf, el))
 		}
-		id, name, ok := t2constInt(p, el)
 		if !ok {
-			c.Und(rule, fmt.Sprintf("%s|element %d is a constant", srcName, i), w.Pos(el.Pos()), "list element is not a constant")
+			c.Und(rule, fmt.Sprintf("%s|element %d is a constant", srcName, i), lpos, "list element is not a constant")
 			continue
 		}
+		name := tlsConstName(id, "TLS_")
 		if name == "" {
 			name = fmt.Sprintf("%#04x", id)
 		}
@@ -1634,17 +1618,17 @@ func tablesC18(c *Ctx) {
 		seen[id] = true
 		switch {
 		case insID[id] != "":
-			c.Bad(rule, key, w.Pos(el.Pos()), fmt.Sprintf("%s (%#04x) is listed by crypto/tls.InsecureCipherSuites()", name, id))
+			c.Bad(rule, key, lpos, fmt.Sprintf("%s (%#04x) is listed by crypto/tls.InsecureCipherSuites()", name, id))
 		case secID[id] != "":
 			what := "TLS 1.2 suite"
 			if tls13[id] {
 				what = "TLS 1.3 suite"
 			}
-			c.Ok(rule, key, w.Pos(el.Pos()), fmt.Sprintf("%s (%#04x): %s listed by crypto/tls.CipherSuites() with Insecure=false", name, id, what))
+			c.Ok(rule, key, lpos, fmt.Sprintf("%s (%#04x): %s listed by crypto/tls.CipherSuites() with Insecure=false", name, id, what))
 		case tls13[id]:
-			c.Ok(rule, key, w.Pos(el.Pos()), fmt.Sprintf("%s (%#04x): TLS 1.3 suite id", name, id))
+			c.Ok(rule, key, lpos, fmt.Sprintf("%s (%#04x): TLS 1.3 suite id", name, id))
 		default:
-			c.Bad(rule, key, w.Pos(el.Pos()), fmt.Sprintf("%s (%#04x) is not in crypto/tls.CipherSuites() (%d secure suites read from source)", name, id, len(secID)))
+			c.Bad(rule, key, lpos, fmt.Sprintf("%s (%#04x) is not in crypto/tls.CipherSuites() (%d secure suites read from source)", name, id, len(secID)))
 		}
 	}
 	c.Floor(rule, n, 6, "cipher suites")
